@@ -91,6 +91,13 @@ def cmd_determinism(args):
         else:
             print("worker-count independence %s: ok" % prop)
     print("determinism self-test: %s in %.0fs" % ("ok" if not bad else "%d FAILURES" % bad, time.time() - t0))
+    if props == ALL:
+        with open(os.path.join(core.VERIF_DIR, "evidence", "selftest-determinism.json"), "w") as f:
+            json.dump({"seeds_per_suite": n, "suites": summary, "failures": bad,
+                       "variants": ["same process, second time", "fresh interpreter PYTHONHASHSEED=0", "fresh interpreter PYTHONHASHSEED=12345",
+                                    "fresh interpreter PYTHONHASHSEED=random", "fresh interpreter, no fork per run"],
+                       "compared": "(plan hash, event-log digest, verdict) per seed; plus aggregated evidence of a check run with 1 and with 7 workers",
+                       "wall_s": round(time.time() - t0, 1)}, f, indent=1)
     return 0 if not bad else 2
 
 
